@@ -280,6 +280,18 @@ def apis():
         oqupy.state_gradient(system=s, initial_state=rho, target_derivative=np.eye(2), process_tensors=[pt],
                              parameters=np.ones((6, 1)) * 0.2, progress_type="rec")
 
+    def grad_final(fail_at):
+        # the entry point below state_gradient, asked for the final state only (record_all=False)
+        from oqupy.gradient import compute_gradient_and_dynamics
+        st, tick = counted(fail_at)
+        def ham(x):
+            tick()
+            return x * oqupy.operators.sigma("x")
+        s = oqupy.ParameterizedSystem(ham)
+        st["armed"] = True
+        compute_gradient_and_dynamics(system=s, initial_state=rho, target_derivative=np.eye(2), process_tensors=[pt],
+                                      parameters=np.ones((6, 1)) * 0.2, record_all=False, progress_type="rec")
+
     def grad_target(fail_at):
         # the objective's derivative is a user callable of the final state: it is evaluated after the forward pass
         st, tick = counted(fail_at)
@@ -395,6 +407,7 @@ def apis():
             ("compute_dynamics", False, dyn, True), ("compute_dynamics_with_field", False, dyn_field, True),
             ("compute_gradient_and_dynamics", False, grad, True),
             ("compute_gradient_and_dynamics(callable target)", False, grad_target, True),
+            ("compute_gradient_and_dynamics(record_all=False)", False, grad_final, True),
             ("state_gradient(user-supplied propagator derivatives)", False, grad_derivs, [1, 2, 3, 6, 7, 101, 102, 104]),
             ("PtTempo.compute", True, pttempo, [1, 30, 200, 1000]), ("PtTebd.compute", True, tebd, True)]
 
@@ -603,8 +616,15 @@ def run(chk):
                     log_at_raise = list(Recorder.log)
                     del caught
                 except Exception as ex:
-                    chk.disagree("bracket harness", f"{name}: unexpected {ex!r}")
-                    continue
+                    if k is None:
+                        chk.disagree("bracket harness", f"{name}: unexpected {ex!r}")
+                        continue
+                    # the injected failure surfaced as another exception (raised while the library was cleaning up): the call
+                    # has still raised, and the same bookkeeping applies
+                    raised = True
+                    log_at_raise = list(Recorder.log)
+                    replaced_by = repr(ex)[:120]
+                    del ex
                 log = list(Recorder.log)
                 if log_at_raise is not None and log_at_raise.count("enter") != log_at_raise.count("exit"):
                     chk.fail("exit-late:" + name, f"{name}: when the caller receives the exception of a failing user callable (evaluation {k}) the progress object has been "
